@@ -8,7 +8,7 @@ Definition optnat_eqb (a b : option nat) : bool :=
 Definition err_eqb (a b : err) : bool :=
   match a, b with
   | ENoImage, ENoImage | ENoFile, ENoFile | EShortRead, EShortRead | ENoConversion, ENoConversion
-  | ENotSerializable, ENotSerializable | ENoSpace, ENoSpace | EWriter, EWriter => true
+  | ENotSerializable, ENotSerializable | ENoSpace, ENoSpace | EWriter, EWriter | EClass, EClass => true
   | _, _ => false
   end.
 Definition out_eqb (a b : out) : bool :=
